@@ -160,6 +160,16 @@ def run(ctx: core.Ctx):
                 ref = S if form == "1d" else np.concatenate([S, S]).reshape(2, -1)
                 if A.shape != ref.shape or not np.allclose(A, ref, rtol=0, atol=1e-15, equal_nan=True):
                     ctx.violation(f"{k}.membership/array-{form}", {"k": k, "p": cases[0]["p"], "h": cases[0]["h"], "palette": palette}, ref.tolist(), A.tolist(), note="array evaluation differs from element-by-element evaluation")
+            # batches of length one keep their shape
+            for sh in ((1,), (1, 1)):
+                one = np.full(sh, xs[len(xs) // 2])
+                try:
+                    r1 = np.asarray(term.membership(one), dtype=float)
+                    ctx.count()
+                    if r1.shape != sh or not np.allclose(r1.ravel(), [S[len(xs) // 2]], rtol=0, atol=1e-15, equal_nan=True):
+                        ctx.violation(f"{k}.membership/single-element-array", {"k": k, "p": cases[0]["p"], "h": cases[0]["h"], "shape": list(sh), "palette": palette}, list(sh), list(r1.shape))
+                except Exception as ex:
+                    ctx.violation(f"{k}.membership/array-1d-raises", {"k": k, "p": cases[0]["p"], "h": cases[0]["h"], "palette": palette}, "values", f"{type(ex).__name__}: {ex}")
             # zero has two binary64 representatives: every parameter (and point) that is 0 is also given as -0.0, in every sign
             # pattern of up to two zeros - the documented definition cannot tell them apart
             zeros = [j for j, v in enumerate(p) if v == 0.0] if k != "Discrete" else []
